@@ -1985,6 +1985,8 @@ where
                 *empty = false;
 
                 loop {
+                    let chunk_is_empty = Self::is_chunk_empty(wb);
+
                     let result = self.invoker.process_read(&item, &mut *wb).await;
 
                     match result {
@@ -2003,6 +2005,11 @@ where
                                 } else {
                                     return Ok(false);
                                 }
+                            } else if chunk_is_empty {
+                                // The value does not fit even in a chunk of its own, so it never will:
+                                // report that instead of sending empty chunks forever
+                                Self::report_too_large(&item, wb)?;
+                                break;
                             } else {
                                 debug!("<<< No TX space, chunking >>>");
                                 if !self
@@ -2154,6 +2161,7 @@ where
 
         loop {
             let pos = wb.get_tail();
+            let chunk_is_empty = Self::is_chunk_empty(wb);
 
             let result = self.invoker.read(&attr, &mut *wb).await;
 
@@ -2161,6 +2169,15 @@ where
                 // If we got an error, we rewind to the position before the read
                 // and handle it accordingly
                 wb.rewind_to(pos);
+            }
+
+            if chunk_is_empty
+                && matches!(&result, Err(err) if err.code() == ErrorCode::NoSpace)
+            {
+                // The item does not fit even in a chunk of its own, so it never will:
+                // report that and give up on the rest of the list
+                Self::report_too_large(&Ok(attr), wb)?;
+                break;
             }
 
             match result {
@@ -2201,6 +2218,35 @@ where
 
         wb.expand(size)?;
         self.reserve_left -= size;
+
+        Ok(())
+    }
+
+    /// Whether the chunk being assembled in `wb` carries no attribute report yet, i.e. holds
+    /// nothing but what `start_reply` and the opening of the attribute reports array wrote.
+    fn is_chunk_empty(wb: &WriteBuf<'_>) -> bool {
+        // Anonymous struct start + (optional) subscription ID + attribute reports array start
+        const MAX_EMPTY_CHUNK_SIZE: usize = 1 + 6 + 2;
+
+        wb.get_tail() - wb.get_start() <= MAX_EMPTY_CHUNK_SIZE
+    }
+
+    /// Report an attribute (or a list item) which is too large for any chunk
+    /// with a `ResourceExhausted` status (nothing for wildcard paths).
+    fn report_too_large(
+        item: &Result<AttrDetails, AttrStatus>,
+        wb: &mut WriteBuf<'_>,
+    ) -> Result<(), Error> {
+        if let Ok(attr) = item {
+            error!(
+                "Attribute {}/{}/{} does not fit in a message",
+                attr.endpoint_id, attr.cluster_id, attr.attr_id
+            );
+
+            if let Some(status) = attr.status(IMStatusCode::ResourceExhausted) {
+                AttrResp::Status(status).to_tlv(&TLVTag::Anonymous, &mut *wb)?;
+            }
+        }
 
         Ok(())
     }
